@@ -84,8 +84,10 @@ func localDay(ns int64, loc *time.Location) int64 {
 }
 
 // writerDay: Window.tla's WriterDay. rule "utc": UTC day of the sample (time_series rows: builder.go truncates the
-// UTC time to 24h; profile tables: toDate() in the materialized views, server zone assumed UTC). rule "local": ch-go
-// ToDate(time.Unix(sec,0)) adds the zone offset of the WRITER process (tempo_traces_attrs_gin, tempo_traces_kv).
+// UTC time to 24h; profile tables: toDate() in the materialized views, server zone assumed UTC; tempo tag rows since the
+// writer passes time.Unix(sec,0).UTC()). rule "local": ch-go ToDate(time.Unix(sec,0)) adds the zone offset of the WRITER
+// process (what the writer did for tempo_traces_attrs_gin / tempo_traces_kv before that repair). The rule of the tempo
+// tables is not assumed: learnTemplates observes what the real writer stores (setTempoRule).
 func writerDay(ns int64, rule string, wloc *time.Location) int64 {
 	if rule == "local" {
 		sec := floorDiv(ns, 1e9)
@@ -107,13 +109,28 @@ var tablesInfo = map[string]tableInfo{
 	"time_series":            {"index", "utc", "lm", ""},
 	"time_series_gin":        {"index", "utc", "lm", ""},
 	"tempo_traces":           {"data", "", "tr", "timestamp_ns"},
-	"tempo_traces_attrs_gin": {"both", "local", "tr", "timestamp_ns"},
-	"tempo_traces_kv":        {"index", "local", "tr", ""},
+	"tempo_traces_attrs_gin": {"both", "utc", "tr", "timestamp_ns"}, // WRule: see setTempoRule
+	"tempo_traces_kv":        {"index", "utc", "tr", ""},
 	"profiles":               {"data", "", "pf", "timestamp_ns"},
 	"profiles_series":        {"index", "utc", "pf", ""},
 	"profiles_series_gin":    {"index", "utc", "pf", ""},
 	"profiles_series_keys":   {"index", "utc", "pf", ""},
 }
+
+// tempoRuleFlag: "" = learn the date rule of the tempo tag tables from the real writer of this process (in a UTC
+// process "utc" and "local" coincide and "utc" is reported); "utc" / "local" = told by the caller (who learnt it in a
+// process with another zone), still compared with what the writer of this process stores.
+var tempoRuleFlag string
+
+func setTempoRule(rule string) {
+	for _, t := range []string{"tempo_traces_attrs_gin", "tempo_traces_kv"} {
+		i := tablesInfo[t]
+		i.WRule = rule
+		tablesInfo[t] = i
+	}
+}
+
+func tempoRule() string { return tablesInfo["tempo_traces_attrs_gin"].WRule }
 
 func baseTable(name string) string {
 	if i := strings.LastIndex(name, "."); i >= 0 {
@@ -248,7 +265,32 @@ func (x *X) learnTemplates() error {
 	if err := obs("time_series", "SELECT toUInt32(ts.date), s.timestamp_ns FROM time_series AS ts INNER JOIN samples_v3 AS s ON ts.fingerprint = s.fingerprint", "utc"); err != nil {
 		return err
 	}
-	if err := obs("tempo_traces_attrs_gin", "SELECT toUInt32(date), timestamp_ns FROM tempo_traces_attrs_gin WHERE key = 'pos'", "local"); err != nil {
+	const tempoObs = "SELECT toUInt32(date), timestamp_ns FROM tempo_traces_attrs_gin WHERE key = 'pos'"
+	if tempoRuleFlag != "" {
+		setTempoRule(tempoRuleFlag)
+	} else {
+		// learn: the rule that explains every stored day ("utc" first: in a UTC process both do)
+		res, err := w.Store.DB.Query(tempoObs)
+		if err != nil {
+			return err
+		}
+		explains := func(rule string) bool {
+			for _, r := range res.Rows {
+				d, _ := toI64(r[0])
+				ts, _ := toI64(r[1])
+				if d != writerDay(ts, rule, time.Local) {
+					return false
+				}
+			}
+			return len(res.Rows) > 0
+		}
+		if !explains("utc") && explains("local") {
+			setTempoRule("local")
+		} else {
+			setTempoRule("utc") // if neither explains the rows the observations below report the mismatch
+		}
+	}
+	if err := obs("tempo_traces_attrs_gin", tempoObs, tempoRule()); err != nil {
 		return err
 	}
 	if err := obs("profiles_series", "SELECT toUInt32(ps.date), p.timestamp_ns FROM profiles_series AS ps INNER JOIN profiles AS p ON ps.fingerprint = p.fingerprint", "utc"); err != nil {
@@ -389,7 +431,7 @@ func (x *X) plant(family string, ents []Entity, wloc *time.Location) error {
 			trows = append(trows, row)
 			days := e.IndexDays
 			if days == nil {
-				days = []int64{writerDay(e.TsNs, "local", wloc)}
+				days = []int64{writerDay(e.TsNs, tempoRule(), wloc)}
 			}
 			for _, d := range days {
 				for _, kv := range [][2]string{{"pos", e.Marker}, {"app", "a1"}, {"name", e.Marker}, {"service.name", "svc"}, {"k" + e.Marker, "1"}} {
